@@ -8,6 +8,7 @@ From Coq Require Import Reals List ZArith Lia Lra Bool.
 Import ListNotations.
 From PV Require Import Base.RList Gen.Problems Model.ProblemsRef.
 Open Scope R_scope.
+Set Default Timeout 30.
 
 (* ------------------------------------------------------------------ shared *)
 Lemma cons_eq : forall (a b : R) l l', a = b -> l = l' -> a :: l = b :: l'.
@@ -34,7 +35,7 @@ Proof. intros l a k ->. rewrite py_upto_nonneg by lia. now rewrite Nat2Z.id. Qed
 Lemma idx_ok_nat : forall l i, (0 <= i < Z.of_nat (length l))%Z -> idx_ok l i.
 Proof. intros l i H. unfold idx_ok, zlen. lia. Qed.
 
-Ltac arg_eq := first [ reflexivity | ring | (field; lra) | lra | (f_equal; arg_eq) ].
+Ltac arg_eq := first [ reflexivity | ring | (field; lra) | lra | (progress f_equal; arg_eq) ].
 Ltac same_arg' f :=
   repeat match goal with
   | |- context [f ?a] =>
@@ -155,6 +156,8 @@ Section ZDT.
     | |- _ <> _ => first [ lra | (apply Rgt_not_eq; lra) ]
     | |- 0 <= _ / _ => apply div_nonneg; lra
     | |- @eq Z _ _ => reflexivity
+    | |- Z.le _ _ => unfold zlen; rewrite ?Hl; lia
+    | |- Z.lt _ _ => unfold zlen; rewrite ?Hl; lia
     | |- _ => idtac
     end.
 
@@ -215,4 +218,20 @@ Section ZDT.
       rewrite <- Rinv_1. apply Rinv_le_contravar; lra. }
     lra.
   Qed.
+
+  (* the same on the generated functions: objective 2 is never below the published front at objective 1 *)
+  Lemma zdt1_front : 1 - sqrt (nth 0 (ZDT1_eval 2 (Z.of_nat n) x) 0) <= nth 1 (ZDT1_eval 2 (Z.of_nat n) x) 0.
+  Proof. rewrite zdt1_gen_eq_ref. unfold zdt1_ref. cbn [nth]. apply front_sqrt; [apply x0_bounds|apply zdt_g123_ge_1]. Qed.
+  Lemma zdt2_front : 1 - nth 0 (ZDT2_eval 2 (Z.of_nat n) x) 0 ^ 2 <= nth 1 (ZDT2_eval 2 (Z.of_nat n) x) 0.
+  Proof. rewrite zdt2_gen_eq_ref. unfold zdt2_ref. cbn [nth]. apply front_sq, zdt_g123_ge_1. Qed.
+  Lemma zdt4_front : 1 - sqrt (nth 0 (ZDT4_eval 2 (Z.of_nat n) x) 0) <= nth 1 (ZDT4_eval 2 (Z.of_nat n) x) 0.
+  Proof. rewrite zdt4_gen_eq_ref. unfold zdt4_ref. cbn [nth]. apply front_sqrt; [apply x0_bounds|apply zdt_g4_ge_1]. Qed.
+  Lemma zdt6_front : 1 - nth 0 (ZDT6_eval 2 (Z.of_nat n) x) 0 ^ 2 <= nth 1 (ZDT6_eval 2 (Z.of_nat n) x) 0.
+  Proof. rewrite zdt6_gen_eq_ref. unfold zdt6_ref. cbn [nth]. apply front_sq, zdt_g6_ge_1. Qed.
 End ZDT.
+
+(* non-vacuity: the hypotheses of the ZDT theorems hold for the centre of the declared box, 30 resp. 10 variables *)
+Example zdt_hyps_30 : (2 <= 30)%nat /\ length (repeat (1 / 2) 30) = 30%nat /\ in01 (repeat (1 / 2) 30).
+Proof. split; [lia|]. split; [apply repeat_length|]. unfold in01. apply Forall_forall. intros t Ht. apply repeat_spec in Ht. subst. lra. Qed.
+Example zdt_hyps_10 : (2 <= 10)%nat /\ length (repeat (1 / 2) 10) = 10%nat /\ in01 (repeat (1 / 2) 10).
+Proof. split; [lia|]. split; [apply repeat_length|]. unfold in01. apply Forall_forall. intros t Ht. apply repeat_spec in Ht. subst. lra. Qed.
